@@ -25,8 +25,10 @@ CFG = dict(
              "applyTRS_post, center_post, normalize_post) and the oracle c03.holds.post_spec evaluates these predicates on the IMPLEMENTATION's output (Float, relative tolerance 1e-9, "
              "non-finite cases skipped). center_post / normalize_post are stated for the fold started at the first element / for the attained longest length (R has no infinity; on a "
              "non-empty array IEEE min(+Inf, x) = x makes them the same fold)",
-             "value maps of SmoothNormals / FlatNormals / LaplacianSmooth are definitions tied bit-for-bit (Laplacian: 2^20 ulps or 1e-6 absolute, Go map order makes the float sum "
-             "order-dependent) to the code; only their frame is proved; Laplacian order-independence over a commutative ring not proved",
+             "SmoothNormals / FlatNormals / LaplacianSmooth: the value statements (Props/C03Normals, C03Laplacian) are over R about the model's loops smoothAccum / flatAccum / lapIter, "
+             "which are tied to Go bit-for-bit (Laplacian: 2^20 ulps or 1e-6 absolute, since Go sums the neighbours in map order). Over R: no NaN (the Go IsNaN skip never fires), x/0 = 0 "
+             "(Go: NaN for a degenerate face in FlatNormals and for a vertex without neighbours in Laplacian) - those float-only cases are covered by correspondence only. What stays order "
+             "dependent and is stated as such: FlatNormals' triangle visiting order on shared vertices (last face wins), Laplacian's ascending in-place vertex visiting order",
              "split parts: material identity is the *Material pointer in Go (model: a Nat id; the harness gives every material a distinct Name and compares by it, SetMaterial copies "
              "the struct so pointers differ after the split); a nil Material in a range makes SplitOnUniqueMaterials dereference nil (runtime panic) - the harness never generates nil "
              "materials; ranges shorter than the triangle list: index-out-of-range panic recovered by the harness and counted as rejection (model: none)",
@@ -40,17 +42,21 @@ CFG = dict(
         text="Lean 4 theorems for every payload type: full contracts - each the same decidable predicate the oracle evaluates on implementation output - for unweld (same corners, "
              "identity indices, exactly one vertex per index; idempotent), remove unreferenced (+ all referenced), flip (+ involution), to point cloud, append (concatenated corners, "
              "zero fill) and repeat, filter, crop (identity-indexed clouds), remove null faces, weld (survivors = triangles with three distinct keys; each corner carries the tuple of the "
-             "first vertex of its key class; every vertex referenced), split by material (one part per distinct material in order of first appearance, each exactly its triangles); "
-             "rejection branches as exact iff statements. Transforms: the FRAME (topology, indices, materials and every other attribute untouched) for set/modify/map, translate, scale, "
-             "rotate, apply-TRS, centre, normalise, smooth/flat normals, Laplacian; the 'stated map' theorems name the applied function, which is definitional and tied to Go bit-for-bit; "
-             "independent value theorems over R: translation keeps differences, scale-about-o fixes o and multiplies offsets, rotation (the regenerated C17 function) scales lengths and "
-             "distances by |q|^2 (preserves them for unit q), TRS, centring puts the bounding-box midpoint at 0, normalising gives the longest vector length 1 - evaluated on the "
-             "implementation's output by a tolerance oracle. Tie: bit-exact comparison of the complete result mesh for 22 operations on generated meshes (6 topologies, attribute mixes "
-             "over widths 1-4, shared/unreferenced/empty index patterns, material ranges of all shapes, non-finite values), contract and post-condition predicates on the "
-             "implementation's outputs.",
-        note="Trusted: Lean kernel + 3 axioms; harness; translator (Gen/Transform.lean). Not theorems: the value maps of smooth normals, flat normals and Laplacian (definitions "
-             "corresponded bit-exactly / within a stated tolerance for Laplacian's map-order summation; only their frame is proved); Laplacian order independence; weld-after-unweld "
-             "composition (correspondence only); IEEE rounding. Observations: Crop ignores the incoming index buffer on non-identity clouds (result still well-formed); split compares "
-             "materials by pointer and dereferences a nil Material (not generated).",
-        technique="Lean 4 proof (per-corner content contracts, frame lemmas, value post-conditions over R reusing C17) + bit-exact whole-mesh correspondence + compiled contract and post-condition oracles"),
+             "first vertex of its key class; every vertex referenced), weld-after-unweld (same surviving triangles and per-corner keys as weld), split by material (one part per distinct "
+             "material in order of first appearance, each exactly its triangles); rejection branches as exact iff statements. Transforms: the FRAME (topology, indices, materials and every "
+             "other attribute untouched) for set/modify/map, translate, scale, rotate, apply-TRS, centre, normalise, smooth/flat normals, Laplacian; the 'stated map' theorems name the "
+             "applied function (definitional, tied to Go bit-for-bit); independent value theorems over R: translation keeps differences, scale-about-o fixes o and multiplies offsets, "
+             "rotation (the regenerated C17 function) scales lengths and distances by |q|^2, TRS, centring puts the bounding-box midpoint at 0, normalising gives the longest vector "
+             "length 1; smooth normals = normalised SUM over incident corners of the face cross products, independent of the triangle order, unit or zero; flat normals = unit normal of "
+             "the LAST visited face containing the vertex (order dependence stated; on unwelded meshes every corner gets its own face's normal whatever the order), normalize(1,1,1) for "
+             "untouched vertices; Laplacian = ascending in-place sweeps of v + f(mean(neighbours) - v), independent of the order in which each neighbour SET is enumerated (Go map order), "
+             "neighbour list = vertices sharing an edge, each once. Tie: bit-exact comparison of the complete result mesh for 23 operations on generated meshes (6 topologies, attribute "
+             "mixes over widths 1-4, shared/unreferenced/empty index patterns, material ranges of all shapes, non-finite values); contract, post-condition and recomputed-in-another-order "
+             "value predicates on the implementation's outputs.",
+        note="Trusted: Lean kernel + 3 axioms; harness; translator (Gen/Transform.lean). The value theorems for normals and Laplacian are over R about the model loops (no NaN, x/0 = 0): "
+             "the float-only branches (IsNaN skip, degenerate-face NaN, neighbour-less vertex NaN) are covered by correspondence only; IEEE rounding is not modelled. Stated order "
+             "dependences: FlatNormals on shared vertices (last face wins), Laplacian's in-place ascending vertex order. Observations: Crop ignores the incoming index buffer on "
+             "non-identity clouds (result still well-formed); split compares materials by pointer and dereferences a nil Material (not generated).",
+        technique="Lean 4 proof (per-corner content contracts, frame lemmas, value statements over R reusing C17, fold-to-sum and permutation-invariance lemmas) + bit-exact whole-mesh "
+                  "correspondence + compiled contract / post-condition / value oracles"),
 )
